@@ -246,3 +246,40 @@ def allocator_seed(ctx):
                 r.notes.append("solver returned unknown")
                 return b.results
     return b.results
+
+
+
+def allocator_seed_input(ctx):
+    """ShardContext::new: the restart allocator is seeded from the whole directory scan - every level keeps its own
+    counter, so every existing id has to be seen, not just the largest name"""
+    b = Builder(ctx, "shard-context-{impl#0}-new.", "ShardContext::new", {})
+    E, q = b.E, ctx.q
+    r = b.mk("allocator-seed-input", "ShardContext::new: RangeAllocator::from_existing_ids is fed an iteration over the complete list "
+             "SegmentIdLoader::load returned (every level has its own counter) - not a single element (last / first / max) or a "
+             "filtered part of it, which would leave the counters of the other levels at 0 and hand out ids of published segments")
+    if not r:
+        return b.results
+    seeds = oblig.events(E, r"RangeAllocator::from_existing_ids")
+    loads = oblig.events(E, r"SegmentIdLoader::load$")
+    if not oblig.need_anchor(r, seeds, "RangeAllocator::from_existing_ids in ShardContext::new") or \
+            not oblig.need_anchor(r, loads, "SegmentIdLoader::load"):
+        return b.results
+    r.nontrivial = True
+    for e in seeds:
+        res, _ = q.check(e.reach, domain=E.domain)
+        r.queries += 1
+        if res != z3.sat:
+            continue
+        src = " ".join(E.trace(e.args[0], e.env, depth=12) | {sym.describe(e.args[0])}) if e.args else ""
+        narrowed = re.search(r"::(last|first|get|max|min|max_by\w*|min_by\w*|pop|nth|take|skip|filter\w*|find\w*|split_\w+|as_deref)\b", src)
+        whole = re.search(r"slice::iter|IntoIterator::into_iter|Vec::(<.*>::)?iter", src) and "SegmentIdLoader::load" in " ".join(
+            E.trace(e.args[0], e.env, depth=16)) if e.args else False
+        if narrowed or not whole:
+            r.status = "violated"
+            r.witness = {"what": "the restart allocator is seeded from " + (f"one part of the directory scan (`{narrowed.group(1)}`)" if narrowed else
+                                 "something other than an iteration over the directory scan")
+                                 + ": levels whose ids are not in it restart at offset 0 and the next flush / compaction at that level "
+                                   "is handed the id of a published segment",
+                         "span": f"{e.span[0]}:{e.span[1]}" if e.span else None, "call": "RangeAllocator::from_existing_ids", "path": [], "model": {}}
+            return b.results
+    return b.results
